@@ -268,6 +268,8 @@ class Plugin:
             case["kwargs"].append(["Extra", enc(rng.choice([1, "x", None]))])
         if rng.random() < 0.3:
             rng.shuffle(case["kwargs"])
+        if rng.random() < 0.35:
+            self._add_prime(rng, case)
         if malformed:
             k = rng.randrange(5)
             if k == 0:
@@ -286,6 +288,33 @@ class Plugin:
                 if args:
                     args[0]["type"] = rng.choice(["ui3", "String", ""])
         return case
+
+    @staticmethod
+    def _twin(rng, v):
+        """a value that compares (and hashes) equal to v but has another Python type"""
+        if isinstance(v, bool):
+            return rng.choice([int(v), float(v)])
+        if isinstance(v, int):
+            return rng.choice([float(v)] + ([bool(v)] if v in (0, 1) else [])) if abs(v) < 2**53 else v
+        if isinstance(v, float) and v == v and abs(v) < 2**53 and v == int(v):
+            return rng.choice([int(v)] + ([bool(v)] if v in (0.0, 1.0) else []))
+        return v
+
+    def _add_prime(self, rng, case):
+        """History: one or two earlier (valid) calls on the same action; sometimes the final call then passes
+        equal values of another type (1 / 1.0 / True) - a per-object memo of accepted values must not let them in."""
+        ins = [a for a in case["args"] if a["dir"] == "in"]
+        first = [[a["name"], enc(self._good_value(rng, a))] for a in ins]
+        case["prime"] = [first]
+        if rng.random() < 0.3:
+            case["prime"].append([[a["name"], enc(self._good_value(rng, a))] for a in ins])
+        if rng.random() < 0.6:
+            good = dict((k, dec(j)) for k, j in first)
+            kw = []
+            for a in ins:
+                v = good[a["name"]]
+                kw.append([a["name"], enc(self._twin(rng, v) if rng.random() < 0.7 else v)])
+            case["kwargs"] = kw
 
     def _printable(self, case):
         import math
@@ -327,6 +356,15 @@ class Plugin:
                               {"name": "R", "dir": "out", "type": "ui4", "allowed": [], "range": None}],
                      "kwargs": [] if isinstance(v, str) and v == "missing" else [["A", enc(v)]]}
                 out.append(c)
+        for tn in ALL_TYPES:
+            pyt = PYTYPE[tn]
+            if pyt not in ("int", "float", "bool"):
+                continue
+            for pv in ([1, 0] if pyt == "int" else [1.0, 0.0] if pyt == "float" else [True, False]):
+                for v in (bool(pv), int(pv), float(pv)):
+                    out.append({"strict": True, "st": SERVICE_TYPES[0], "action": "Act", "base": BASES[0], "ctrl": "/ctl",
+                                "args": [{"name": "A", "dir": "in", "type": tn, "allowed": [], "range": None}],
+                                "prime": [[["A", enc(pv)]]], "kwargs": [["A", enc(v)]]})
         probe = list(range(0, 0x30)) + [0x3C, 0x3D, 0x3E, 0x5D, 0x7F, 0x80, 0x85, 0xA0, 0xD7FF, 0xE000, 0xFFFD, 0xFFFE, 0xFFFF,
                                          0x10000, 0x10FFFF, 0x2028]
         if tier == "thorough":
@@ -393,6 +431,13 @@ class Plugin:
             action, req = build_action(case)
         except Exception as e:  # noqa: BLE001
             return {"kind": "create_failed", "exn": type(e).__name__}
+        # earlier calls on the same action object: the outcome of a call must not depend on them
+        for pk in case.get("prime", []):
+            try:
+                _loop().run_until_complete(action.async_call(**{k: dec(j) for k, j in pk}))
+            except Exception:  # noqa: BLE001
+                pass
+        req.calls.clear()
         kwargs = {k: dec(j) for k, j in case["kwargs"]}
         err = None
         try:
@@ -508,9 +553,19 @@ class Plugin:
                     t = "str:" + ("cr" if "\r" in s else "markup" if any(ch in s for ch in "<>&") else "plain")
                 vals[t] = vals.get(t, 0) + 1
         return {"outcomes": kinds, "in_arguments": dict(sorted(n_in.items())), "in_argument_types": types, "value_kinds": vals,
+                "with_earlier_calls": sum(1 for c in cases if c.get("prime")),
                 "non_strict": sum(1 for c in cases if not c["strict"])}
 
     def shrink(self, case):
+        if case.get("prime"):
+            c = json.loads(json.dumps(case))
+            del c["prime"]
+            yield c
+            if len(case["prime"]) > 1:
+                for i in range(len(case["prime"])):
+                    c = json.loads(json.dumps(case))
+                    del c["prime"][i]
+                    yield c
         names = [a["name"] for a in case["args"]]
         for i, nm in enumerate(names):
             c = json.loads(json.dumps(case))
